@@ -18,6 +18,9 @@ while True:
     c = os.read(ctl, 1)
     if not c:
         os._exit(99)
+    if c == b'w':
+        os.write(1, b'last words')        # said right before the end (the next command byte ends the child)
+        continue
     if c == b'x':
         os._exit(os.read(ctl, 1)[0])
     if c == b'k':
@@ -319,10 +322,15 @@ def children():
 def fd_socket_lifecycle(ctx, sigs):
     """fdspawn / SocketSpawn: close is idempotent, releases the descriptor, isalive tells the truth, I/O after close errors"""
     import socket
-    for kind in ('fd', 'socket', 'socket-reset'):
-        if kind == 'fd':
+    for kind in ('fd', 'fd-poll', 'socket', 'socket-reset'):
+        if kind in ('fd', 'fd-poll'):
             r, w = os.pipe()
-            p = fdpexpect.fdspawn(r); n = r
+            p = fdpexpect.fdspawn(r, use_poll=(kind == 'fd-poll')); n = r
+            os.write(w, b'x')
+            try:
+                p.read_nonblocking(1, 1)          # the object has been used for reading before it is closed
+            except Exception:
+                pass
         elif kind == 'socket':
             a, b = socket.socketpair(); p = socket_pexpect.SocketSpawn(a); n = a.fileno()
         else:
@@ -357,11 +365,20 @@ def fd_socket_lifecycle(ctx, sigs):
             p.send(b'x'); problems.append('send after close succeeded')
         except Exception:
             pass
+        # whatever is opened next takes over the descriptor number: a read on the closed object must fail at once with an error, not look at it
+        squat = os.pipe() if kind in ('fd', 'fd-poll') else None
+        t0 = time.time()
         try:
-            p.read_nonblocking(1, 0); problems.append('read after close succeeded')
-        except (ValueError, OSError, pexpect.EOF, pexpect.TIMEOUT):
+            p.read_nonblocking(1, 0.4); problems.append('read after close succeeded')
+        except (ValueError, OSError):
             pass
-        if kind == 'fd':
+        except (pexpect.EOF, pexpect.TIMEOUT) as e:
+            problems.append('read after close ended in %s (it looked at descriptor %d, which belongs to someone else now)' % (type(e).__name__, n))
+        if time.time() - t0 > 0.25:
+            problems.append('read after close took %.2f s' % (time.time() - t0))
+        if squat:
+            os.close(squat[0]); os.close(squat[1])
+        if kind in ('fd', 'fd-poll'):
             os.close(w)
         elif kind == 'socket':
             b.close()
@@ -385,6 +402,36 @@ def sweep_c09(ctx, sigs):
     for i, s in enumerate(sigsv):
         cases.append(('', ('s', s), paths[(i + 1) % len(paths)]))
     return cases
+
+
+def last_words(ctx, sigs):
+    """the child's last output and its end are both waiting when one read takes them: the read that met the end of the stream has observed the
+    death, so the fate is known right after it - without any further call"""
+    for plan in [('e', 3), ('e', 0), ('s', 9), ('s', 40)]:
+        for how in ('read_nonblocking', 'expect_exact'):
+            ch = Child('', plan)
+            p = ch.p
+            try:
+                os.write(ch.cw, b'w')
+                ch.end()                      # waits until the child is a zombie (not reaped)
+                if how == 'read_nonblocking':
+                    got = p.read_nonblocking(4096, 2)
+                else:
+                    p.expect_exact(b'words', timeout=2); got = p.before + p.after
+                met_eof = bool(p.flag_eof)
+                seen = (p.exitstatus, p.signalstatus, bool(p.terminated))
+                want = (plan[1], None, True) if plan[0] == 'e' else (None, plan[1], True)
+                sigs.add(('last-words', how, plan[0], met_eof))
+                if met_eof and seen != want:
+                    common.report(ctx, 'last-words/%s/%s' % (how, plan[0]),
+                                  'the child wrote %r and ended (%s); %s returned it and met the end of the stream in the same call (flag_eof is set), but '
+                                  '(exitstatus, signalstatus, terminated) = %r, the child\'s fate is %r' % (got, plan, how, seen, want), dict(plan=list(plan), how=how))
+                    return
+            except Exception as e:       # noqa
+                common.report(ctx, 'last-words/%s/raised' % how, 'last words then end (%s), %s raised %s: %s' % (plan, how, type(e).__name__, str(e)[:100]), dict(plan=list(plan), how=how))
+                return
+            finally:
+                ch.cleanup()
 
 
 def popen_and_run(ctx, sigs):
@@ -625,6 +672,7 @@ def run(ctx):
         if mo is not None and real != mo:
             ctx.broken.append('correspondence life-cycle model vs real child(%s, %s) ops %s: real [%s] model [%s]' % (d or 'normal', plan, ops, real, mo))
     if prop == 'C09':
+        last_words(ctx, sigs)
         popen_and_run(ctx, sigs)
         popen_histories(ctx, sigs)
     else:
